@@ -11,8 +11,14 @@ use humphrey::http::{Request, Response, StatusCode};
 use humphrey::stream::Stream;
 
 use std::io::Write;
+#[cfg(not(humphrey_verif))]
 use std::sync::mpsc::Sender;
+#[cfg(humphrey_verif)]
+use humphrey::verif::sync::mpsc::Sender;
+#[cfg(not(humphrey_verif))]
 use std::sync::{Arc, Mutex};
+#[cfg(humphrey_verif)]
+use humphrey::verif::sync::{Arc, Mutex};
 
 /// Represents a function able to handle WebSocket streams.
 pub trait WebsocketHandler<S>: Fn(WebsocketStream, Arc<S>) + Send + Sync {}
